@@ -153,24 +153,51 @@ func padName(prefix string, n, length int) string {
 	return s
 }
 
-// namesDiff: after is before with one contiguous run of >= 2 names replaced
-// by at most one new name (or unchanged).
+// compactionShape: after must be derivable from before by replacing disjoint contiguous
+// runs of >= 2 tables by at most one new table each (one compaction, or several in a row),
+// and the number of tables must have gone down if anything changed.
 func compactionShape(before, after []string) (changed bool, err error) {
 	if fmt.Sprint(before) == fmt.Sprint(after) {
 		return false, nil
 	}
-	p := 0
-	for p < len(before) && p < len(after) && before[p] == after[p] {
-		p++
+	inAfter := map[string]int{}
+	for i, n := range after {
+		inAfter[n] = i
 	}
-	s := 0
-	for s < len(before)-p && s < len(after)-p && before[len(before)-1-s] == after[len(after)-1-s] {
-		s++
-	}
-	removed := len(before) - p - s
-	added := len(after) - p - s
-	if removed < 2 || added > 1 {
-		return true, fmt.Errorf("%d tables replaced by %d", removed, added)
+	bi, ai := 0, 0
+	for bi < len(before) || ai < len(after) {
+		// retained table: must appear in the same relative order
+		if bi < len(before) {
+			if j, ok := inAfter[before[bi]]; ok {
+				if j < ai {
+					return true, fmt.Errorf("table %s moved", before[bi])
+				}
+				// everything in after[ai:j] is new, with no removed run to account for it
+				if j > ai {
+					return true, fmt.Errorf("%d new tables appeared without replacing a run", j-ai)
+				}
+				bi++
+				ai = j + 1
+				continue
+			}
+		}
+		// a run of removed tables, followed by the new tables that replace it
+		r := 0
+		for bi < len(before) {
+			if _, ok := inAfter[before[bi]]; ok {
+				break
+			}
+			bi++
+			r++
+		}
+		ins := 0
+		for ai < len(after) && !contains(before, after[ai]) {
+			ai++
+			ins++
+		}
+		if r < 2 || ins > 1 {
+			return true, fmt.Errorf("a run of %d tables was replaced by %d", r, ins)
+		}
 	}
 	if len(after) >= len(before) {
 		return true, fmt.Errorf("number of tables did not decrease (%d -> %d)", len(before), len(after))
